@@ -30,6 +30,8 @@ func alnum(s string) string {
 	return string(b)
 }
 
+var c10zones = []*time.Location{time.UTC, time.FixedZone("ist", 5*3600+1800), time.FixedZone("pst", -8*3600), time.FixedZone("npt", 5*3600+2700), time.FixedZone("line", 14*3600)}
+
 type c10exp struct {
 	id       string
 	entry    string
@@ -94,7 +96,9 @@ func c10Worker(w *W) {
 					seq++
 					id := fmt.Sprintf("id-%s-%d", alnum(state), seq)
 					cnt := &c10counts{ctxOK: true}
-					hookT := time.Date(2001+seq%20, time.Month(1+seq%12), 1+seq%28, seq%24, seq%60, (seq/60)%60, (seq%1000)*1e6, time.UTC)
+					// hook times: consecutive calls share one Unix second but lie in different zones (per-request zones), so the
+					// record must show the hook's wall-clock reading, not a cached rendering of "the same second"
+					hookT := time.Unix(978_307_200+int64(seq/2)*86_461, int64(seq%1000)*1e6).In(c10zones[seq%len(c10zones)])
 					hookS := fmt.Sprintf("cs-%d", seq)
 					if seq%7 == 3 {
 						hookS = "" // a hook may legitimately return nothing; it still runs exactly once
